@@ -1,5 +1,5 @@
 (* C11 - property theorems only. *)
-From HV Require Import Prelude C11_Model C11_Check C11_Proofs C11_Proofs2 C11_Proofs3 C11_Proofs4 C11_Proofs5 C11_Proofs6 C11_Proofs7 C11_Proofs8.
+From HV Require Import Prelude C11_Model C11_Check C11_Proofs C11_Proofs2 C11_Proofs3 C11_Proofs4 C11_Proofs5 C11_Proofs6 C11_Proofs7 C11_Proofs8 C11_ProofsRegion C11_ProofsRegion2 C11_Proofs10 C11_Proofs9.
 From Coq Require Import Permutation Sorted.
 
 (* sorting (Haplotypes.sort / Haplotype.sort): a permutation, ordered by
@@ -25,10 +25,10 @@ Print Assumptions C11_sort_idempotent.
    of the file (and optionally to IDs) is the filter of the full plain read *)
 Theorem C11_indexed_query_eq_filter :
   forall (fetch : list line -> Z -> option Z -> option Z -> res (list line)),
-  (forall f q a b, tabix_okb f = true -> fetch f q a b = fetch_spec f q a b) ->
-  forall f, tabix_okb f = true -> wf f ->
-  (forall l, In l f -> match l with LX _ _ _ _ _ => False | _ => True end) ->
+  (forall f q a b, tabix_accepts f = true -> fetch f q a b = fetch_spec f q a b) ->
+  forall f, tabix_accepts f = true -> wf f ->
   forall r ids, (r_a r = None -> r_b r = None) -> In (r_contig r) (contigs f) ->
+  (forall t s e x, ~ In (LX t (r_contig r) s e x) f) ->      (* no line of an unknown type on that contig *)
   exists full, read_plain f None = Ok full /\
     read_indexed false fetch f (Some r) ids = Ok (filter (selected (Some r) ids) full).
 Proof. exact indexed_region_eq_filter. Qed.
@@ -38,7 +38,7 @@ Print Assumptions C11_indexed_query_eq_filter.
 Example C11_query_hypotheses_satisfiable :
   let f := [LC 0; LR 1 3 5 7 []; LH 1 5 10 4 []; LH 1 5 20 5 []; LH 2 5 10 6 [];
             LV 4 5 5 8 1 []; LV 4 10 10 9 2 []; LV 6 7 8 9 3 []] in
-  tabix_okb f = true /\ wf_file f = true /\
+  tabix_accepts f = true /\ wf_file f = true /\
   forallb (fun l => match l with LX _ _ _ _ _ => false | _ => true end) f = true /\
   memZ 1 (contigs f) = true /\
   read_indexed false fetch_spec f (Some (mkreg 1 (Some 4) (Some 10))) None
@@ -51,9 +51,8 @@ Proof. exact wf_file_sound. Qed.
 Print Assumptions C11_wf_file_sound.
 
 (* the checker evaluated on the implementation's answers means what the property says *)
-Theorem C11_holds_query_sound : forall file full q,
-  holds_query1 file full q = true ->
-  match q_reg q with Some r => In (r_contig r) (contigs file) | None => True end ->
+Theorem C11_holds_query_sound : forall strict nm file full q,
+  holds_query1 strict nm file full q = true -> counts strict nm file q ->
   exists out out', q_res q = Ok out /\ Permutation out out' /\
     Forall2 entry_same (filter (selected (q_reg q) (q_ids q)) full) out'.
 Proof. exact holds_query1_sound. Qed.
@@ -67,22 +66,22 @@ Print Assumptions C11_perm_eqb_sound.
 
 Theorem C11_legacy_variantless_query_refuted :
   let f := [LC 0; LH 1 10 30 2 []] in
-  tabix_okb f = true /\ wf_file f = true /\
+  tabix_accepts f = true /\ wf_file f = true /\
   read_plain f None = Ok [(mkh false 1 10 30 2, [])] /\
   read_indexed true fetch_spec f (Some (mkreg 1 None None)) None = Err E_Value /\
   read_indexed false fetch_spec f (Some (mkreg 1 None None)) None = Ok [(mkh false 1 10 30 2, [])].
 Proof. exact legacy_variantless_query_refuted. Qed.
 Print Assumptions C11_legacy_variantless_query_refuted.
 
-(* IDs alone (no region): the early exit of _iter_haps loses nothing *)
+(* IDs alone (no region): the early exit of _iter_haps loses nothing; an empty set selects nothing *)
 Theorem C11_indexed_ids_eq_filter :
   forall (fetch : list line -> Z -> option Z -> option Z -> res (list line)),
-  (forall f q a b, tabix_okb f = true -> fetch f q a b = fetch_spec f q a b) ->
-  forall f, tabix_okb f = true ->
-  forall ids, NoDup ids -> wf f -> ids <> [] ->
+  (forall f q a b, tabix_accepts f = true -> fetch f q a b = fetch_spec f q a b) ->
+  forall f, tabix_accepts f = true -> wf f ->
+  forall ids, NoDup ids ->
   exists full, read_plain f None = Ok full /\
     read_indexed false fetch f None (Some ids) = Ok (filter (selected None (Some ids)) full).
-Proof. exact indexed_ids_eq_filter. Qed.
+Proof. exact indexed_ids_eq_filter_all. Qed.
 Print Assumptions C11_indexed_ids_eq_filter.
 
 (* index_haps on a well-formed file: completes, the output is accepted by tabix
@@ -93,17 +92,18 @@ Theorem C11_indexed_file_tabix_ok : forall f, wf f ->
 Proof. exact sorted_output_tabix_ok. Qed.
 Print Assumptions C11_indexed_file_tabix_ok.
 
-Theorem C11_index_keeps_records : forall f, wf f ->
-  exists out, index_output true f = Ok out /\ tabix_okb out = true /\
+Theorem C11_index_keeps_records : forall f, wf f -> range_okb f = true ->
+  exists out, index_output true f = Ok out /\ tabix_accepts out = true /\
     Permutation (records f) (records out).
 Proof. exact index_sorted_total. Qed.
 Print Assumptions C11_index_keeps_records.
 
 (* --no-sort: every line (header, extra fields) verbatim, whenever tabix accepts the file *)
 Theorem C11_index_nosort_verbatim : forall f,
-  (tabix_okb f = true -> index_output false f = Ok f) /\
+  (tabix_accepts f = true -> index_output false f = Ok f) /\
+  (tabix_accepts f = false -> index_output false f = Err E_OS) /\
   (forall out, index_output false f = Ok out -> out = f).
-Proof. intros f. split; [apply index_nosort_accepts|apply index_nosort_verbatim]. Qed.
+Proof. intros f. split; [apply index_nosort_accepts|split; [apply index_nosort_refuses|apply index_nosort_verbatim]]. Qed.
 Print Assumptions C11_index_nosort_verbatim.
 
 (* tabix acceptance only looks at the (sequence, start, end) triples of the data lines *)
@@ -116,20 +116,25 @@ Print Assumptions C11_tabix_walk_is_walk3.
 Theorem C11_holds_index_sorted_sound : forall k,
   i_sort k = true -> wf_file (i_in k) = true -> holds_index k = true ->
   i_obs k = Err E_Unobserved \/
+  (range_okb (i_in k) = false /\ exists e, i_obs k = Err e) \/
   exists out, i_obs k = Ok out
     /\ Permutation (records (i_in k)) (records out)
     /\ (forall l, In l out -> match l with LX _ _ _ _ _ => False | _ => True end)
     /\ tabix_okb out = true
+    /\ i_tbi k = true
     /\ i_fetch k = Ok (data_lines out)
     /\ (i_plain k = true -> i_after k = Some (i_in k)).
 Proof. exact holds_index_sorted_sound. Qed.
 Print Assumptions C11_holds_index_sorted_sound.
 
 Theorem C11_holds_index_nosort_sound : forall k,
-  i_sort k = false -> tabix_okb (i_in k) = true -> holds_index k = true ->
-  i_obs k = Ok (i_in k)
-  /\ i_fetch k = Ok (data_lines (i_in k))
-  /\ (i_plain k = true -> i_after k = Some (i_in k)).
+  i_sort k = false -> holds_index k = true ->
+  i_obs k = Err E_Unobserved \/
+  (tabix_accepts (i_in k) = false /\ exists e, i_obs k = Err e) \/
+  (i_obs k = Ok (i_in k)
+   /\ i_tbi k = true
+   /\ i_fetch k = Ok (data_lines (i_in k))
+   /\ (i_plain k = true -> i_after k = Some (i_in k))).
 Proof. exact holds_index_nosort_sound. Qed.
 Print Assumptions C11_holds_index_nosort_sound.
 
@@ -138,7 +143,8 @@ Print Assumptions C11_holds_index_nosort_sound.
    the order of the records and of the variants inside a record *)
 Theorem C11_query_on_index_output : forall f, wf f ->
   forall (fetch : list line -> Z -> option Z -> option Z -> res (list line)),
-  (forall g q a b, tabix_okb g = true -> fetch g q a b = fetch_spec g q a b) ->
+  (forall g q a b, tabix_accepts g = true -> fetch g q a b = fetch_spec g q a b) ->
+  range_okb f = true ->
   forall r ids, (r_a r = None -> r_b r = None) -> In (r_contig r) (contigs f) ->
   exists full res res',
     index_output true f = Ok (to_str (sort_data (map (entry_of (vrecs f)) (hrs f)))) /\
@@ -155,3 +161,224 @@ Theorem C11_sorted_unique : forall l l' : list hrec,
   NoDup (map h_id l) -> Permutation l l' -> StronglySorted h_key_le l' -> l' = isort h_ltb l.
 Proof. exact sorted_unique. Qed.
 Print Assumptions C11_sorted_unique.
+
+(* ======================= added by the strengthening pass ======================= *)
+
+(* --- the 2^29 limit of a .tbi --- *)
+
+(* the sorted output fits a .tbi whenever the input does *)
+Theorem C11_indexed_file_fits_tbi : forall f, wf f -> range_okb f = true ->
+  tabix_accepts (to_str (sort_data (map (entry_of (vrecs f)) (hrs f)))) = true.
+Proof. exact sorted_output_accepted. Qed.
+Print Assumptions C11_indexed_file_fits_tbi.
+
+(* and the limit is sharp: one record ending beyond 2^29 and index_haps fails *)
+Theorem C11_index_beyond_tbi_range_fails : forall f, wf f -> noX f -> range_okb f = false ->
+  index_output true f = Err E_OS.
+Proof. exact index_sorted_beyond_range. Qed.
+Print Assumptions C11_index_beyond_tbi_range_fails.
+
+Example C11_tbi_limit_instances :
+  index_output true [LH 1 5 536870912 2 []] = Ok [LC 0; LH 1 5 536870912 2 []] /\
+  index_output true [LH 1 5 536870913 2 []] = Err E_OS /\
+  index_output false [LH 1 5 536870913 2 []] = Err E_OS.
+Proof. vm_compute. repeat split. Qed.
+Print Assumptions C11_tbi_limit_instances.
+
+(* --- what the sorted mode writes: "mandatory fields" made precise --- *)
+Theorem C11_index_sorted_shape : forall f out, index_output true f = Ok out ->
+  exists body, out = LC VERSION_LINE :: body /\
+    (forall l, In l body -> is_header l = false /\ extras_of l = []).
+Proof. exact index_sorted_shape. Qed.
+Print Assumptions C11_index_sorted_shape.
+
+(* --- the new clauses of the index checker --- *)
+Theorem C11_holds_index_sorted_total : forall k,
+  i_sort k = true -> wf_file (i_in k) = true -> range_okb (i_in k) = true -> holds_index k = true ->
+  i_obs k = Err E_Unobserved \/
+  exists out, i_obs k = Ok out /\ i_tbi k = true /\ i_fetch k = Ok (data_lines out).
+Proof. exact holds_index_sorted_total. Qed.
+Print Assumptions C11_holds_index_sorted_total.
+
+Theorem C11_holds_index_nosort_accepted : forall k,
+  i_sort k = false -> tabix_accepts (i_in k) = true -> holds_index k = true ->
+  i_obs k = Err E_Unobserved \/
+  (i_obs k = Ok (i_in k) /\ i_tbi k = true /\ i_fetch k = Ok (data_lines (i_in k))
+   /\ (i_plain k = true -> i_after k = Some (i_in k))).
+Proof. exact holds_index_nosort_accepted. Qed.
+Print Assumptions C11_holds_index_nosort_accepted.
+
+(* --- region strings: printing and the two parsers --- *)
+
+(* int() / htslib's number parser invert the decimal printing *)
+Theorem C11_dec_roundtrip : forall z, 0 <= z ->
+  py_int (dec z) = Some z /\ digits_val (dec z) = Some z.
+Proof. intros z Hz. split; [now apply py_int_dec|now apply digits_val_dec]. Qed.
+Print Assumptions C11_dec_roundtrip.
+
+(* the tree as it is: for a contig without ':' (dashes allowed) both parsers read
+   the canonical string of (contig, a, b) as (contig, a, b) *)
+Theorem C11_region_parsers_invert_printing : forall nm f c k a b s,
+  has_colon c = false -> bounds_pos a b -> print_reg c a b = Some s ->
+  seq_of nm f c = Some k -> (a = None \/ is_seq nm f s = false) ->
+  py_region false nm f s = Ok (a, b) /\ hts_region false nm f s = Ok (k, a, b).
+Proof.
+  intros nm f c k a b s Hc Hb Hp Hk Hs. split;
+    [now apply (py_region_legacy nm f c a b s)|now apply (hts_region_legacy nm f c k a b s)].
+Qed.
+Print Assumptions C11_region_parsers_invert_printing.
+
+(* the repaired parser: any contig name *)
+Theorem C11_region_parsers_invert_printing_fixed : forall nm f c k a b s,
+  bounds_pos a b -> print_reg c a b = Some s -> seq_of nm f c = Some k ->
+  (a = None -> bare_ambiguous nm f s = false) ->
+  py_region true nm f s = Ok (a, b) /\ hts_region true nm f s = Ok (k, a, b).
+Proof.
+  intros nm f c k a b s Hb Hp Hk Ha. split;
+    [now apply (py_region_fixed nm f c k a b s)|now apply (hts_region_fixed nm f c k a b s)].
+Qed.
+Print Assumptions C11_region_parsers_invert_printing_fixed.
+
+Theorem C11_names_okb_sound : forall nm, names_okb nm = true -> names_ok nm.
+Proof. exact names_okb_sound. Qed.
+Print Assumptions C11_names_okb_sound.
+
+Theorem C11_risky_ids_sound : forall nm f, risky_ids nm f = false ->
+  forall i, In i (h_ids f) -> exists t, name_of nm i = Some t /\ risky nm f t = false.
+Proof. exact risky_ids_false. Qed.
+Print Assumptions C11_risky_ids_sound.
+
+(* the property's second sentence for the STRING that is passed (no hypothesis on
+   the shape of the region: the printed forms are 'c', 'c:a-', 'c:a-b') *)
+Theorem C11_region_string_query :
+  forall (fetch : list line -> Z -> option Z -> option Z -> res (list line)),
+  (forall f q a b, tabix_accepts f = true -> fetch f q a b = fetch_spec f q a b) ->
+  forall f, tabix_accepts f = true -> wf f ->
+  forall nm, names_ok nm ->
+  forall r c s ids,
+  ids_safe f nm false ->
+  name_of nm (r_contig r) = Some c -> has_colon c = false ->
+  bounds_ok r = true -> print_reg c (r_a r) (r_b r) = Some s ->
+  (r_a r = None \/ is_seq nm f s = false) ->
+  In (r_contig r) (contigs f) ->
+  (forall t s' e x, ~ In (LX t (r_contig r) s' e x) f) ->
+  exists full, read_plain f None = Ok full /\
+    read_indexed_s false fetch f nm s ids = Ok (filter (selected (Some r) ids) full).
+Proof. exact region_string_query_legacy. Qed.
+Print Assumptions C11_region_string_query.
+
+Theorem C11_region_string_query_fixed :
+  forall (fetch : list line -> Z -> option Z -> option Z -> res (list line)),
+  (forall f q a b, tabix_accepts f = true -> fetch f q a b = fetch_spec f q a b) ->
+  forall f, tabix_accepts f = true -> wf f ->
+  forall nm, names_ok nm ->
+  forall r c s ids,
+  ids_safe f nm true ->
+  name_of nm (r_contig r) = Some c ->
+  bounds_ok r = true -> print_reg c (r_a r) (r_b r) = Some s ->
+  (r_a r = None -> bare_ambiguous nm f s = false) ->
+  In (r_contig r) (contigs f) ->
+  (forall t s' e x, ~ In (LX t (r_contig r) s' e x) f) ->
+  exists full, read_plain f None = Ok full /\
+    read_indexed_s true fetch f nm s ids = Ok (filter (selected (Some r) ids) full).
+Proof. exact region_string_query_fixed. Qed.
+Print Assumptions C11_region_string_query_fixed.
+
+(* IDs alone, with the variant lookup going through the spelling of each ID *)
+Theorem C11_ids_string_query :
+  forall (fetch : list line -> Z -> option Z -> option Z -> res (list line)),
+  (forall f q a b, tabix_accepts f = true -> fetch f q a b = fetch_spec f q a b) ->
+  forall f, tabix_accepts f = true -> wf f ->
+  forall nm, names_ok nm ->
+  forall fixed ids, ids_safe f nm fixed -> NoDup ids ->
+  exists full, read_plain f None = Ok full /\
+    read_ids_s fixed fetch f nm (Some ids) = Ok (filter (selected None (Some ids)) full).
+Proof. exact ids_string_query_all. Qed.
+Print Assumptions C11_ids_string_query.
+
+(* the scope clause of holds_query1 lies inside the hypotheses of these theorems *)
+Theorem C11_in_scope_sound : forall nm file r s,
+  (forall c, in_scope false nm file r s = true -> name_of nm (r_contig r) = Some c ->
+     has_colon c = false /\ (r_a r = None \/ is_seq nm file s = false)) /\
+  (in_scope true nm file r s = true -> r_a r = None -> bare_ambiguous nm file s = false).
+Proof. intros nm file r s. split; [intros c; apply in_scope_legacy|apply in_scope_fixed]. Qed.
+Print Assumptions C11_in_scope_sound.
+
+Example C11_region_string_hypotheses_satisfiable :
+  let f := [LC 0; LH 1 5 10 2 []; LH 1 5 20 3 []; LV 2 6 6 4 5 []] in
+  let nm := [([72; 76; 65; 45; 65], 1); ([104], 2); ([105], 3)] in
+  let r := mkreg 1 (Some 4) (Some 10) in
+  let s := [72; 76; 65; 45; 65; 58; 52; 45; 49; 48] in
+  tabix_accepts f = true /\ wf_file f = true /\ names_okb nm = true /\ risky_ids nm f = false /\
+  has_colon [72; 76; 65; 45; 65] = false /\ bounds_ok r = true /\
+  print_reg [72; 76; 65; 45; 65] (r_a r) (r_b r) = Some s /\ is_seq nm f s = false /\
+  read_indexed_s false fetch_spec f nm s None = Ok [(mkh false 1 5 10 2, [mkv 2 6 6 4 5])].
+Proof. exact region_string_hypotheses_satisfiable. Qed.
+Print Assumptions C11_region_string_hypotheses_satisfiable.
+
+(* --- the defects of the tree as it is (fixes/C11_colon_names.patch) --- *)
+Example C11_legacy_colon_contig_refuted :
+  let f := [LC 0; LH 1 5 10 2 []] in
+  let nm := [([54; 58; 55], 1); ([104], 2)] in
+  let s := [54; 58; 55] in
+  tabix_accepts f = true /\ wf_file f = true /\ names_okb nm = true /\
+  read_plain f None = Ok [(mkh false 1 5 10 2, [])] /\
+  read_indexed_s false fetch_spec f nm s None = Ok [] /\
+  read_indexed_s true fetch_spec f nm s None = Ok [(mkh false 1 5 10 2, [])].
+Proof. exact legacy_colon_contig_refuted. Qed.
+Print Assumptions C11_legacy_colon_contig_refuted.
+
+Example C11_legacy_colon_contig_raises :
+  let f := [LC 0; LH 1 5 10 2 []] in
+  let nm := [([65; 58; 48; 49], 1); ([104], 2)] in
+  let s := [65; 58; 48; 49; 58; 53; 45; 49; 48] in
+  read_indexed_s false fetch_spec f nm s None = Err E_Value /\
+  read_indexed_s true fetch_spec f nm s None = Ok [(mkh false 1 5 10 2, [])].
+Proof. exact legacy_colon_contig_raises. Qed.
+Print Assumptions C11_legacy_colon_contig_raises.
+
+Example C11_legacy_region_like_id_refuted :
+  let f := [LC 0; LH 1 5 10 2 []; LV 2 6 6 3 4 []] in
+  let nm := [([49], 1); ([49; 58; 53], 2)] in
+  tabix_accepts f = true /\ wf_file f = true /\ names_okb nm = true /\
+  read_plain f None = Ok [(mkh false 1 5 10 2, [mkv 2 6 6 3 4])] /\
+  read_ids_s false fetch_spec f nm (Some [2]) = Ok [(mkh false 1 5 10 2, [])] /\
+  read_ids_s true fetch_spec f nm (Some [2]) = Ok [(mkh false 1 5 10 2, [mkv 2 6 6 3 4])] /\
+  read_indexed_s false fetch_spec f nm [49] None = Ok [(mkh false 1 5 10 2, [])] /\
+  read_indexed_s true fetch_spec f nm [49] None = Ok [(mkh false 1 5 10 2, [mkv 2 6 6 3 4])].
+Proof. exact legacy_region_like_id_refuted. Qed.
+Print Assumptions C11_legacy_region_like_id_refuted.
+
+(* --- the chain index -> query, for IDs alone and for region strings --- *)
+Theorem C11_ids_on_index_output : forall f, wf f -> range_okb f = true ->
+  forall (fetch : list line -> Z -> option Z -> option Z -> res (list line)),
+  (forall g q a b, tabix_accepts g = true -> fetch g q a b = fetch_spec g q a b) ->
+  forall ids, NoDup ids ->
+  exists full res res',
+    index_output true f = Ok (to_str (sort_data (map (entry_of (vrecs f)) (hrs f)))) /\
+    read_plain f None = Ok full /\
+    read_indexed false fetch (to_str (sort_data (map (entry_of (vrecs f)) (hrs f)))) None (Some ids) = Ok res /\
+    Permutation res res' /\
+    Forall2 entry_same (filter (selected None (Some ids)) full) res'.
+Proof. exact ids_on_index_output. Qed.
+Print Assumptions C11_ids_on_index_output.
+
+Theorem C11_region_string_on_index_output : forall f, wf f -> range_okb f = true ->
+  forall (fetch : list line -> Z -> option Z -> option Z -> res (list line)),
+  (forall g q a b, tabix_accepts g = true -> fetch g q a b = fetch_spec g q a b) ->
+  forall fixed nm r c s ids,
+  let out := to_str (sort_data (map (entry_of (vrecs f)) (hrs f))) in
+  names_ok nm -> ids_safe out nm fixed ->
+  name_of nm (r_contig r) = Some c ->
+  bounds_ok r = true -> print_reg c (r_a r) (r_b r) = Some s ->
+  (if fixed then r_a r = None -> bare_ambiguous nm out s = false
+   else has_colon c = false /\ (r_a r = None \/ is_seq nm out s = false)) ->
+  In (r_contig r) (contigs f) ->
+  exists full res res',
+    index_output true f = Ok out /\
+    read_plain f None = Ok full /\
+    read_indexed_s fixed fetch out nm s ids = Ok res /\
+    Permutation res res' /\
+    Forall2 entry_same (filter (selected (Some r) ids) full) res'.
+Proof. exact region_string_on_index_output. Qed.
+Print Assumptions C11_region_string_on_index_output.
